@@ -16,6 +16,7 @@ is x.f) and compared through the canonical text of sem.cx.  Guards are compared 
 from __future__ import annotations
 
 import ast
+import re
 import copy
 from typing import Optional
 
@@ -609,7 +610,38 @@ def nh_dispatch(ctx) -> dict:
             seen.add(nhs[0])
     ctx.ob("C01.demux", bd.short(), "nh-dispatch:both", seen == set(BTP_HEADER_OF_NH),
            f"BTP-A and BTP-B indications are both dispatched (dispatched: {sorted(seen)})", bd.loc)
+    _no_silent_drop(ctx, [bd] + [P.funcs[q] for q in out])
     return out
+
+
+def _no_silent_drop(ctx, funcs: list) -> None:
+    """A BTP indication is dropped without a callback only for a reason the property allows: no handler registered for the
+    port, or a GN payload shorter than the 4-octet BTP header.  Any other condition on the way to a `return` (e.g. a guard
+    on the payload LENGTH that also catches complete headers with an empty payload) loses a deliverable payload."""
+    P = ctx.prog
+    for fi in funcs:
+        gn = fi.params[1] if len(fi.params) > 1 else None
+        rets = [n for n in ast.walk(fi.node) if isinstance(n, ast.Return)]
+        bad = []
+        for r in rets:
+            for pc in sem.path_conditions(fi.node, r, kill_rebound=False):
+                for a in pc:
+                    if "upper_protocol_entity" in a or "indication_callbacks" in a or "callback" in a:
+                        continue            # NH dispatch / registry state / handler lookup
+                    m = re.fullmatch(r"(gt|ge)\((.+),len\((.+)\)\)", a)
+                    if m and m.group(3).endswith(".data") or (m and gn and gn in m.group(3)):
+                        try:
+                            bound = int(m.group(2))
+                        except ValueError:
+                            bound = None
+                        # gt(N, len) : len < N ; ge(N, len) : len <= N   -> must imply len < 4
+                        if bound is not None and ((m.group(1) == "gt" and bound <= 4) or (m.group(1) == "ge" and bound <= 3)):
+                            continue
+                    bad.append((r.lineno, a))
+        ctx.ob("C01.demux", fi.short(), "drops-only-undeliverable", not bad,
+               "an indication is dropped without calling a handler only when no handler is registered or the BTP header is incomplete" if not bad else
+               f"an indication can be dropped silently under {sorted(set(x for _, x in bad))[:3]} (return at line {bad[0][0]}): a deliverable payload "
+               "(e.g. an empty payload behind a complete BTP header) is lost", fi.loc)
 
 
 def demux(ctx):
